@@ -250,14 +250,15 @@ def parseCall (s : String) : Option W2.Call :=
 def errName : Option W2.Err → String
   | none => "ok" | some .closed => "closed" | some .limit => "limit" | some (.other _) => "other"
 
-/-- a read schedule that goes on after `io.EOF` (C13: end of stream is stable) and stops at the first error -/
-def seqCont {α : Type} (rd : α → Nat → α × ByteArray × LazyDec.RStat) : α → List Nat → List (ByteArray × LazyDec.RStat)
-  | _, [] => []
-  | x, len :: rest =>
+/-- a read schedule that goes on after `io.EOF` (C13: end of stream is stable) and for up to `more` further calls after
+    an error (what the reader does when the caller ignores an error: never a panic, C11) -/
+def seqCont {α : Type} (rd : α → Nat → α × ByteArray × LazyDec.RStat) : α → List Nat → Nat → List (ByteArray × LazyDec.RStat)
+  | _, [], _ => []
+  | x, len :: rest, more =>
     let (x', out, st) := rd x len
     match st with
-    | .err _ => [(out, st)]
-    | _ => (out, st) :: seqCont rd x' rest
+    | .err _ => if more = 0 then [(out, st)] else (out, st) :: seqCont rd x' rest (more - 1)
+    | _ => (out, st) :: seqCont rd x' rest more
 
 def ferrName : Option W2F.FErr → String
   | none => "ok" | some .sink => "sink" | some (.w e) => errName (some e)
@@ -450,7 +451,7 @@ def handle (line : String) : String :=
       match LazyDec.newReader cc (unhex h) with
       | .error e => "open:" ++ en e
       | .ok l =>
-        let rs := seqCont LazyDec.read l lens
+        let rs := seqCont LazyDec.read l lens 3
         " ".intercalate (rs.map (fun (o, st) => s!"{o.size}:" ++ (match st with | .ok => "ok" | .eof => "EOF" | .err e => en e))) ++
           " | " ++ hex (LazyDec.delivered rs)
     | _, _ => "bad-op"
@@ -460,7 +461,7 @@ def handle (line : String) : String :=
       let en : LazyDec.Err → String := fun e => match e with
         | .unexpectedEOF => "UnexpectedEOF" | .size => "size" | .dataAfterEOS => "dataAfterEOS" | .noSpace => "noSpace"
         | .distRange => "distRange" | .lenRange => "lenRange" | .panic => "panic" | .other w => "other(" ++ w.replace " " "_" ++ ")"
-      let rs := seqCont LazyDec2.read (LazyDec2.newReader2 cc (unhex h)) lens
+      let rs := seqCont LazyDec2.read (LazyDec2.newReader2 cc (unhex h)) lens 3
       " ".intercalate (rs.map (fun (o, st) => s!"{o.size}:" ++ (match st with | .ok => "ok" | .eof => "EOF" | .err e => en e))) ++
         " | " ++ hex (LazyDec.delivered rs)
     | _, _ => "bad-op"
@@ -472,7 +473,7 @@ def handle (line : String) : String :=
       match LazyXz.newReader cc (boolOf sg) (unhex h) with
       | .error st => "open:" ++ sn st
       | .ok x =>
-        let rs := seqCont LazyXz.read x lens
+        let rs := seqCont LazyXz.read x lens 0  -- the model keeps no faithful state after an error of the xz reader (errors there are not sticky)
         " ".intercalate (rs.map (fun (o, st) => s!"{o.size}:" ++ sn st)) ++ " | " ++ hex (LazyDec.delivered rs)
     | _, _ => "bad-op"
   -- btcands <dictCap> <hex(history)> <hex(look ≤ 273)> → special:a:b of the Lean binary tree model
